@@ -73,44 +73,13 @@ Proof. vm_compute. reflexivity. Qed.
 Lemma caches_compare_source : caches_comparing_source = ["CSSCache"; "JSCache"; "JSONCache"].
 Proof. vm_compute. reflexivity. Qed.
 
-(* js_parser.Options: the uncovered fields are exactly finding C *)
-Lemma js_uncovered_exact : uncovered js_irrelevant js_option_fields = known_gap_C.
+(* js_parser.Options: every field the parser reads is compared or justified *)
+Lemma js_covers : equal_covers js_irrelevant js_option_fields = true.
 Proof. vm_compute. reflexivity. Qed.
 
-Lemma js_covers_refuted :
-  exists f, In f js_option_fields /\ of_read f = true /\ of_set f = true /\
-            is_compared (of_cmp f) = false /\ ~ In (of_name f) js_irrelevant.
-Proof.
-  exists (mkOField "jsx.AutomaticRuntime" "bool" true true CmpNone).
-  split; [vm_compute; tauto|]. repeat split.
-  intro H. apply str_in_In in H. vm_compute in H. discriminate.
-Qed.
-
-Lemma js_covers_partial : equal_covers (js_irrelevant ++ known_gap_C) js_option_fields = true.
-Proof. vm_compute. reflexivity. Qed.
-
-(* the gap is not only syntactic: there is a parser that reads only fields the
-   real parser package reads, and two option values the table comparison calls
-   equal, for which the memo table returns a stale result *)
-Definition gap_parse (s : Z) (o : oassign) : Z := s + o "jsx.AutomaticRuntime".
+(* the former witness of finding C: the comparison now tells the two option
+   values apart *)
 Definition gap_o : oassign := fun _ => 0.
 Definition gap_o' : oassign := fun n => if String.eqb n "jsx.AutomaticRuntime" then 1 else 0.
-
-Lemma gap_parse_reads_only : reads_only Z Z gap_parse js_option_fields js_irrelevant.
-Proof.
-  intros s o o' H. unfold gap_parse. f_equal.
-  apply (H (mkOField "jsx.AutomaticRuntime" "bool" true true CmpNone)).
-  - vm_compute; tauto.
-  - reflexivity.
-  - intro C. apply str_in_In in C. vm_compute in C. discriminate.
-Qed.
-
-Lemma js_gap_breaks_memo :
-  reads_only Z Z gap_parse js_option_fields js_irrelevant /\
-  table_equal js_option_fields gap_o gap_o' = true /\
-  run_memo (fun s => s) Z.eqb (table_equal js_option_fields) gap_parse [] [(7, gap_o); (7, gap_o')]
-    <> [gap_parse 7 gap_o; gap_parse 7 gap_o'].
-Proof.
-  split; [exact gap_parse_reads_only|]. split; [vm_compute; reflexivity|].
-  apply memo_stale; [reflexivity | vm_compute; reflexivity | vm_compute; discriminate].
-Qed.
+Lemma js_former_gap_closed : table_equal js_option_fields gap_o gap_o' = false.
+Proof. vm_compute. reflexivity. Qed.
